@@ -30,6 +30,27 @@ type StyleDef struct {
 	EmptyP bool           `json:"empty_ppr,omitempty"` // paragraph properties present although no paragraph element is set
 	EmptyR bool           `json:"empty_rpr,omitempty"`
 	Via    string         `json:"via"` // add: literal + AddStyle; custom: CreateCustomStyle then properties; quick: QuickStyleAPI.CreateQuickStyle
+	// Vals: the value class of every attribute value of this definition ("" = the plain encoding of Idx); see val.
+	// CreateQuickStyle takes numbers and flags only, so a quick definition ignores it.
+	Vals string `json:"vals,omitempty"`
+	// Extra: the parts of a style definition that are not formatting elements of this property (w:next, w:default, a
+	// missing w:name, a built-in style, table / row / cell property blocks, an explicit empty w:basedOn); they take part
+	// in purity and clone independence. Ignored by CreateQuickStyle.
+	Extra *StyleExtra `json:"extra,omitempty"`
+}
+
+// StyleExtra: see StyleDef.Extra.
+type StyleExtra struct {
+	Next         string `json:"next,omitempty"`
+	Default      bool   `json:"default,omitempty"`
+	NoName       bool   `json:"no_name,omitempty"`
+	Builtin      bool   `json:"builtin,omitempty"`        // no w:customStyle
+	EmptyBasedOn bool   `json:"empty_based_on,omitempty"` // <w:basedOn w:val=""/> on a style that names no parent
+	// Tbl: table properties. bit 0 w:tblInd, bits 1-6 the six w:tblBorders sides, bits 7-10 the four w:tblCellMar
+	// sides, bit 11 a w:tblPr element although nothing else is set.
+	Tbl  int  `json:"tbl,omitempty"`
+	TrPr bool `json:"trpr,omitempty"` // an (empty) w:trPr block
+	TcPr bool `json:"tcpr,omitempty"` // an (empty) w:tcPr block
 }
 
 type Case struct {
@@ -38,8 +59,14 @@ type Case struct {
 	Queries    []string   `json:"queries"`
 	// Edits: changes made to the registry after it has been queried; every query is repeated after every edit (the
 	// registry a query sees is the one that is registered at that moment, however it came about)
-	Edits    []Edit `json:"edits,omitempty"`
-	Excluded string `json:"excluded,omitempty"` // generator note: the cyclic graph mode that was drawn but replaced while the cycle finding is open
+	Edits []Edit `json:"edits,omitempty"`
+	// Load: the registry is first handed a styles part through LoadStylesFromDocument, as Open does (shape as for the xml
+	// edits, written from Styles; only drawn on top of the predefined registry). A part that is empty or refused leaves the
+	// default styles, which is what the registry held before; see setup.
+	Load     string  `json:"load,omitempty"`
+	Probes   []Probe `json:"probes,omitempty"`
+	Twin     *Twin   `json:"twin,omitempty"`
+	Excluded string  `json:"excluded,omitempty"` // generator note: the cyclic graph mode that was drawn but replaced while the cycle finding is open
 }
 
 // Edit is one change of the registry between two rounds of queries.
@@ -49,17 +76,56 @@ type Case struct {
 //	remove: RemoveStyle(ID)
 //	modify: the registered style object (GetStyle) gets the property blocks and the based-on of Def assigned in place,
 //	        the way CreateQuickStyle fills the object CreateCustomStyle has registered; no-op for an unregistered id
+//	quick-dup: CreateQuickStyle(Def) for an id that is registered: the call is refused and nothing changes (for an id
+//	        that is not registered it is an ordinary "put" through CreateQuickStyle)
+//	xml-parse / xml-merge: ParseStylesFromXML / MergeStylesFromXML with a styles part written by the harness from Defs in
+//	        the flavour Shape. What the call amounts to (refused with an error and nothing changed, or the registry replaced
+//	        by / extended with the parsed definitions) is read from the same call on a scratch registry: see xmlOutcome.
 type Edit struct {
-	Op  string    `json:"op"`
-	ID  string    `json:"id,omitempty"`
-	Def *StyleDef `json:"def,omitempty"`
+	Op    string     `json:"op"`
+	ID    string     `json:"id,omitempty"`
+	Def   *StyleDef  `json:"def,omitempty"`
+	Defs  []StyleDef `json:"defs,omitempty"`
+	Shape string     `json:"shape,omitempty"`
 }
 
 func (e Edit) target() string {
 	if e.Def != nil {
 		return e.Def.ID
 	}
+	if e.ID == "" && len(e.Defs) > 0 {
+		return e.Defs[0].ID
+	}
 	return e.ID
+}
+
+// targets: every id the edit names.
+func (e Edit) targets() []string {
+	if len(e.Defs) == 0 {
+		return []string{e.target()}
+	}
+	var out []string
+	for _, d := range e.Defs {
+		out = append(out, d.ID)
+	}
+	return out
+}
+
+// Probe is a call of one of the read-only entry points of the registry, made in every round just before query number
+// At (At = number of queries: after the last one). It takes part in the history; the clauses judge what follows.
+type Probe struct {
+	At   int    `json:"at"`
+	Kind string `json:"kind"` // bytype | headings | all | allinfo | headinginfo | parainfo | charinfo | names | configs | exists | get
+	Arg  string `json:"arg,omitempty"`
+}
+
+// Twin asks for a second registry that is queried alternately with the first one, query by query, in every round, and
+// is never edited: "fresh" = another StyleManager holding the same ids and based-on graph with other values (value codes
+// shifted by Shift); "clone" = Clone() of the first registry taken before the first query (its reference is the
+// registry as first registered, whatever happens to the source afterwards).
+type Twin struct {
+	Kind  string `json:"kind"`
+	Shift int    `json:"shift,omitempty"`
 }
 
 // allQueries: the ids asked in every round: the case's queries and every id an edit names.
@@ -70,9 +136,11 @@ func (c Case) allQueries() []string {
 		seen[q] = true
 	}
 	for _, e := range c.Edits {
-		if id := e.target(); !seen[id] {
-			seen[id] = true
-			out = append(out, id)
+		for _, id := range e.targets() {
+			if !seen[id] {
+				seen[id] = true
+				out = append(out, id)
+			}
 		}
 	}
 	return out
@@ -191,6 +259,9 @@ func (d StyleDef) mask(e string) int {
 	if !ok {
 		return legacyMask(e, d.Idx)
 	}
+	if m&emptyElem != 0 && canBeEmpty[e] && d.Via != "quick" {
+		return 0 // the element without any attribute (w:pBdr: without any side)
+	}
 	switch e {
 	case "underline", "snapToGrid":
 		if m&1 != 0 {
@@ -214,6 +285,56 @@ func (d StyleDef) mask(e string) int {
 	return m
 }
 
+// emptyElem in Attrs[e]: the element is present and populates nothing (<w:spacing/>, <w:ind/>, <w:rFonts/>, <w:pBdr/>: all
+// their attributes / children are optional in the schema).
+const emptyElem = 0x100
+
+var canBeEmpty = map[string]bool{"spacing": true, "indentation": true, "font": true, "borders": true}
+
+// val turns the plain encoding enc of an attribute value into the value class of the definition. typ: num (a number),
+// hex (a colour), enum (a token), name / name1 (free text; name1 = the one slot that the class "long" makes long);
+// def = the value the schema (or the application) assumes when the attribute is absent.
+func (d StyleDef) val(typ, enc, def string) string {
+	if d.Via == "quick" {
+		return enc
+	}
+	switch d.Vals {
+	case "default":
+		return def
+	case "zero":
+		switch typ {
+		case "num":
+			return "0"
+		case "hex":
+			return "000000"
+		}
+	case "neg":
+		if typ == "num" {
+			return "-" + enc
+		}
+	case "frac":
+		if typ == "num" {
+			return enc + ".5"
+		}
+	case "pad": // leading / trailing blank, TAB, newline
+		if d.Idx%2 == 0 {
+			return " " + enc + " "
+		}
+		return "\t" + enc + "\n"
+	case "upper": // differs only in case from the plain encoding another style may carry
+		return strings.ToUpper(enc)
+	case "astral":
+		if typ == "name" || typ == "name1" {
+			return "𝔘" + enc + "😀"
+		}
+	case "long": // one value longer than 64 KiB
+		if typ == "name1" {
+			return strings.Repeat("长x", 17000) + enc
+		}
+	}
+	return enc
+}
+
 var (
 	lineRules = []string{"auto", "exact", "atLeast"}
 	bdrVals   = []string{"single", "double", "dashed", "dotted"}
@@ -229,12 +350,12 @@ func pick(m, k int, v string) string {
 }
 
 // line builds one border side; i encodes the defining style and the side, am (4 bits) the populated attributes.
-func line(i, am int) *style.ParagraphBorderLine {
+func (d StyleDef) line(i, am int) *style.ParagraphBorderLine {
 	return &style.ParagraphBorderLine{
-		Val:   pick(am, 0, bdrVals[(i/16)%len(bdrVals)]),
-		Color: pick(am, 1, fmt.Sprintf("00%02X00", i)),
-		Sz:    pick(am, 2, fmt.Sprint(4+i)),
-		Space: pick(am, 3, fmt.Sprint(1+i%16)),
+		Val:   pick(am, 0, d.val("enum", bdrVals[(i/16)%len(bdrVals)], "none")),
+		Color: pick(am, 1, d.val("hex", fmt.Sprintf("00%02X00", i), "auto")),
+		Sz:    pick(am, 2, d.val("num", fmt.Sprint(4+i), "0")),
+		Space: pick(am, 3, d.val("num", fmt.Sprint(1+i%16), "0")),
 	}
 }
 
@@ -255,37 +376,37 @@ func (d StyleDef) props() (*style.ParagraphProperties, *style.RunProperties) {
 		switch e {
 		case "spacing":
 			p.Spacing = &style.Spacing{
-				Before:   pick(m, 0, fmt.Sprint(100+i)),
-				After:    pick(m, 1, fmt.Sprint(200+i)),
-				Line:     pick(m, 2, fmt.Sprint(240+i)),
-				LineRule: pick(m, 3, lineRules[i%len(lineRules)]),
+				Before:   pick(m, 0, d.val("num", fmt.Sprint(100+i), "0")),
+				After:    pick(m, 1, d.val("num", fmt.Sprint(200+i), "0")),
+				Line:     pick(m, 2, d.val("num", fmt.Sprint(240+i), "240")),
+				LineRule: pick(m, 3, d.val("enum", lineRules[i%len(lineRules)], "auto")),
 			}
 		case "indentation":
 			p.Indentation = &style.Indentation{
-				FirstLine: pick(m, 0, fmt.Sprint(300+i)),
-				Left:      pick(m, 1, fmt.Sprint(400+i)),
-				Right:     pick(m, 2, fmt.Sprint(500+i)),
+				FirstLine: pick(m, 0, d.val("num", fmt.Sprint(300+i), "0")),
+				Left:      pick(m, 1, d.val("num", fmt.Sprint(400+i), "0")),
+				Right:     pick(m, 2, d.val("num", fmt.Sprint(500+i), "0")),
 			}
 		case "alignment":
-			p.Justification = &style.Justification{Val: jcVals[i%len(jcVals)]}
+			p.Justification = &style.Justification{Val: d.val("enum", jcVals[i%len(jcVals)], "left")}
 		case "borders":
 			b := &style.ParagraphBorder{}
 			am := m >> 4
 			if m&1 != 0 {
-				b.Top = line(i, am)
+				b.Top = d.line(i, am)
 			}
 			if m&2 != 0 {
-				b.Left = line(i+16, am)
+				b.Left = d.line(i+16, am)
 			}
 			if m&4 != 0 {
-				b.Bottom = line(i+32, am)
+				b.Bottom = d.line(i+32, am)
 			}
 			if m&8 != 0 {
-				b.Right = line(i+48, am)
+				b.Right = d.line(i+48, am)
 			}
 			p.ParagraphBorder = b
 		case "shading":
-			p.Shading = &style.Shading{Fill: pick(m, 0, fmt.Sprintf("%02XEEEE", i)), Val: pick(m, 1, shdVals[i%len(shdVals)])}
+			p.Shading = &style.Shading{Fill: pick(m, 0, d.val("hex", fmt.Sprintf("%02XEEEE", i), "auto")), Val: pick(m, 1, d.val("enum", shdVals[i%len(shdVals)], "clear"))}
 		case "keepNext":
 			p.KeepNext = &style.KeepNext{}
 		case "keepLines":
@@ -293,30 +414,30 @@ func (d StyleDef) props() (*style.ParagraphProperties, *style.RunProperties) {
 		case "pageBreak":
 			p.PageBreak = &style.PageBreak{}
 		case "outlineLevel":
-			p.OutlineLevel = &style.OutlineLevel{Val: fmt.Sprint(i % 10)}
+			p.OutlineLevel = &style.OutlineLevel{Val: d.val("num", fmt.Sprint(i%10), "9")}
 		case "snapToGrid":
-			p.SnapToGrid = &style.SnapToGrid{Val: pick(m, 0, fmt.Sprint(i%2))}
+			p.SnapToGrid = &style.SnapToGrid{Val: pick(m, 0, d.val("num", fmt.Sprint(i%2), "1"))}
 		case "bold":
 			r.Bold = &style.Bold{}
 		case "italic":
 			r.Italic = &style.Italic{}
 		case "underline":
-			r.Underline = &style.Underline{Val: pick(m, 0, ulVals[i%len(ulVals)])}
+			r.Underline = &style.Underline{Val: pick(m, 0, d.val("enum", ulVals[i%len(ulVals)], "none"))}
 		case "strike":
 			r.Strike = &style.Strike{}
 		case "size":
-			r.FontSize = &style.FontSize{Val: fmt.Sprint(20 + 2*i)}
+			r.FontSize = &style.FontSize{Val: d.val("num", fmt.Sprint(20+2*i), "20")}
 		case "colour":
-			r.Color = &style.Color{Val: fmt.Sprintf("0000%02X", i)}
+			r.Color = &style.Color{Val: d.val("hex", fmt.Sprintf("0000%02X", i), "auto")}
 		case "font":
 			r.FontFamily = &style.FontFamily{
-				ASCII:    pick(m, 0, fmt.Sprintf("Font%d", i)),
-				EastAsia: pick(m, 1, fmt.Sprintf("東%d", i)),
-				HAnsi:    pick(m, 2, fmt.Sprintf("H%d", i)),
-				CS:       pick(m, 3, fmt.Sprintf("C%d", i)),
+				ASCII:    pick(m, 0, d.val("name1", fmt.Sprintf("Font%d", i), "Times New Roman")),
+				EastAsia: pick(m, 1, d.val("name", fmt.Sprintf("東%d", i), "Times New Roman")),
+				HAnsi:    pick(m, 2, d.val("name", fmt.Sprintf("H%d", i), "Times New Roman")),
+				CS:       pick(m, 3, d.val("name", fmt.Sprintf("C%d", i), "Times New Roman")),
 			}
 		case "highlight":
-			r.Highlight = &style.Highlight{Val: hlVals[i%len(hlVals)]}
+			r.Highlight = &style.Highlight{Val: d.val("enum", hlVals[i%len(hlVals)], "none")}
 		}
 	}
 	return p, r
@@ -329,6 +450,7 @@ func (d StyleDef) literal() *style.Style {
 		s.BasedOn = &style.BasedOn{Val: d.BasedOn}
 	}
 	s.ParagraphPr, s.RunPr = d.props()
+	d.applyExtra(s)
 	return s
 }
 
@@ -910,7 +1032,7 @@ func (reg registry) clone() registry {
 }
 
 // applyModel makes the edit in the reference registry and says what it amounted to there:
-// replace | add | remove | remove-absent | modify | modify-absent.
+// replace | add | remove | remove-absent | modify | modify-absent | refused | xml-refused | xml-parse | xml-merge.
 func (reg registry) applyModel(e Edit) string {
 	switch e.Op {
 	case "remove":
@@ -919,9 +1041,31 @@ func (reg registry) applyModel(e Edit) string {
 		}
 		delete(reg, e.ID)
 		return "remove"
-	case "put":
+	case "xml-parse", "xml-merge":
+		parsed, ok := xmlOutcome(e)
+		if !ok {
+			return "xml-refused"
+		}
+		if e.Op == "xml-parse" {
+			for id := range reg {
+				delete(reg, id)
+			}
+		}
+		for _, st := range parsed {
+			if _, had := reg[st.StyleID]; !had {
+				reg[st.StyleID] = snapshotStyle(st)
+			}
+		}
+		return e.Op
+	case "put", "quick-dup":
 		d := *e.Def
 		_, had := reg[d.ID]
+		if e.Op == "quick-dup" {
+			if had {
+				return "refused" // CreateQuickStyle checks the id first and returns an error for a registered one
+			}
+			d.Via = "quick"
+		}
 		if d.Via == "quick" && !had {
 			// the model takes a quick definition as CreateQuickStyle creates it (definitions are inputs of this property)
 			reg[d.ID] = snapshotStyle(quickDef(d))
